@@ -31,8 +31,10 @@ static void sched_reporter(const char *kind, const char *details) {
 }
 #endif
 
+static inline uint64_t sseed_peek(const uint8_t *d, size_t n) { return vg::hash_bytes(d, n) ^ 0x7C07; }
+
 // ---- file generation -------------------------------------------------------------------------------
-struct GenFile { std::vector<uint8_t> bytes; std::vector<uint8_t> plain; bool has_bcj = false; std::string desc; unsigned blocks = 0, streams = 0; };
+struct GenFile { std::vector<uint8_t> bytes; std::vector<uint8_t> plain; bool has_bcj = false; std::string desc; unsigned blocks = 0, streams = 0; uint64_t tight_mem = 0; /* about what one Block of a Block-by-Block stream needs in threaded mode */ };
 
 static void gen_stream(Case &c, GenFile &F) {
 	// one Stream: either the threaded encoder (Blocks carry size fields) or the single-threaded one with
@@ -81,19 +83,21 @@ static void gen_stream_mixed(Case &c, GenFile &F) {
 	lzma_options_lzma lz; lzma_lzma_preset(&lz, 0); lz.dict_size = 4096u << c.u(5);
 	lzma_filter fl[2] = {{LZMA_FILTER_LZMA2, &lz}, {LZMA_VLI_UNKNOWN, NULL}};
 	lzma_check chk = c.pick({LZMA_CHECK_CRC32, LZMA_CHECK_CRC64, LZMA_CHECK_NONE, LZMA_CHECK_SHA256});
-	unsigned nblocks = 2 + c.small(8); std::string pattern;
+	// now and then hundreds of tiny Blocks: per-Block bookkeeping (queue, memory accounting, Index) gets many rounds in one Stream
+	const bool many = c.rare(24); unsigned nblocks = many ? 100 + c.u(300) : 2 + c.small(8); std::string pattern; uint64_t max_unc = 0, max_comp = 0;
 	lzma_stream_flags sf; memset(&sf, 0, sizeof sf); sf.version = 0; sf.check = chk;
 	std::vector<uint8_t> out(LZMA_STREAM_HEADER_SIZE);
 	if (lzma_stream_header_encode(&sf, out.data()) != LZMA_OK) harness_bug("stream header encode");
 	lzma_index *idx = lzma_index_init(NULL); if (!idx) harness_bug("index init");
 	for (unsigned b = 0; b < nblocks; ++b) {
 		Recipe r = draw_recipe(c, c.rare(40) ? (1u << 16) : (1u << 12), lz.dict_size); if (r.len == 0) r.len = 1 + c.u(40);
+		if (many) { r.kind = RK_RANDOM; r.len = 1 + (uint32_t)((r.seed + b) % 40); r.seed += b; }
 		std::vector<uint8_t> plain = expand(r);
 		lzma_block blk; memset(&blk, 0, sizeof blk); blk.version = 1; blk.check = chk; blk.filters = fl;
 		std::vector<uint8_t> buf(lzma_block_buffer_bound(plain.size())); size_t pos = 0;
 		if (lzma_block_buffer_encode(&blk, NULL, plain.data(), plain.size(), buf.data(), &pos, buf.size()) != LZMA_OK) harness_bug("block buffer encode");
 		const uint32_t old_hs = blk.header_size; const lzma_vli comp = blk.compressed_size, unc = blk.uncompressed_size;
-		const bool sizes = c.flag(); pattern += sizes ? 'S' : 'n';
+		const bool sizes = many ? ((r.seed >> 3) % 8 != 0) : c.flag(); if (pattern.size() < 40) pattern += sizes ? 'S' : 'n'; max_unc = std::max<uint64_t>(max_unc, unc); max_comp = std::max<uint64_t>(max_comp, comp);
 		std::vector<uint8_t> hdr(buf.begin(), buf.begin() + old_hs);
 		if (!sizes) {
 			blk.compressed_size = LZMA_VLI_UNKNOWN; blk.uncompressed_size = LZMA_VLI_UNKNOWN;
@@ -110,6 +114,7 @@ static void gen_stream_mixed(Case &c, GenFile &F) {
 	sf.backward_size = isz; if (lzma_stream_footer_encode(&sf, out.data() + at + isz) != LZMA_OK) harness_bug("footer encode");
 	lzma_index_end(idx, NULL);
 	F.bytes.insert(F.bytes.end(), out.begin(), out.end()); F.blocks += nblocks; ++F.streams;
+	F.tight_mem = lzma_raw_decoder_memusage(fl) + max_unc + max_comp; if (many) vg::count("stream_of_hundreds_of_tiny_blocks");
 	char d[160]; snprintf(d, sizeof d, "{\"sizes\":\"%s\",\"blocks\":%u,\"dict\":%u,\"check\":%d}", pattern.c_str(), nblocks, lz.dict_size, (int)chk);
 	if (!F.desc.empty()) F.desc += ","; F.desc += d;
 }
@@ -159,6 +164,8 @@ extern "C" int LLVMFuzzerTestOneInput(const uint8_t *data, size_t size) {
 	mt.timeout = c.pick<uint32_t>({0, 0, 1, 2});
 #endif
 	mt.memlimit_threading = c.pick<uint64_t>({UINT64_MAX, 64u << 20, 2u << 20, 300000, 70000, 1});
+	// a limit just above what one Block needs (Block-by-Block streams only): threaded mode stays possible for one Block at a time as long as the accounting is exact
+	if (F.tight_mem && (sseed_peek(data, size) % 3) == 0) { static const uint32_t sl[6] = {64, 512, 2048, 4096, 8192, 16384}; mt.memlimit_threading = F.tight_mem + sl[(sseed_peek(data, size) >> 4) % 6]; count("memlimit_threading_just_above_one_block"); }
 	bool low_stop = c.rare(40);
 	mt.memlimit_stop = low_stop ? c.pick<uint64_t>({1, 40000, 100000}) : UINT64_MAX;
 	drv::Schedule sch = drv::draw_schedule(c, true);
